@@ -369,10 +369,13 @@ def bounded_check(max_len: int = 6) -> dict:
     bad = []
     n = 0
     levels = (1, 2, 3)
-    for pp, qp, ap, bp, ara, bra in itertools.product(levels, levels, levels, levels, (False, True), (False, True)):
+    for pp, rp, qp, ap, bp, ara, bra in itertools.product(levels, levels, levels, levels, levels, (False, True), (False, True)):
         if ap == bp and ara != bra:
             continue  # equal precedence with different associativity is not a well-formed table
-        tables = ({"neg": pp}, {"fac": qp}, {"add": (ap, ara), "mul": (bp, bra)})
+        if rp < pp:
+            continue  # the two prefix operators are interchangeable: one order of their precedences suffices
+        # two prefix operators of independent precedence (round-6 seed C18c: a looser prefix operator outside a tighter one)
+        tables = ({"neg": pp, "not": rp}, {"fac": qp}, {"add": (ap, ara), "mul": (bp, bra)})
 
         class PP(PrattParser):
             PREFIX_OPS = tables[0]
@@ -394,10 +397,10 @@ def bounded_check(max_len: int = 6) -> dict:
         def streams(k):
             # well-formed: (pre* atom post*) (in pre* atom post*)*
             def operand(budget):
-                for a in range(0, 2):
+                for pre in ((), ("neg",), ("not",), ("neg", "not"), ("not", "neg")):
                     for b in range(0, 2):
-                        if a + 1 + b <= budget:
-                            yield [("pre", "neg")] * a + [("atom", "x")] + [("post", "fac")] * b
+                        if len(pre) + 1 + b <= budget:
+                            yield [("pre", nm) for nm in pre] + [("atom", "x")] + [("post", "fac")] * b
 
             def go(budget):
                 for o in operand(budget):
@@ -421,7 +424,7 @@ def bounded_check(max_len: int = 6) -> dict:
         if bad:
             break
     return {"name": "c18-declarative-binding", "kind": "bounded stand-in (declarative binding conditions on the real result trees)",
-            "bound": f"tables over 3 precedence levels, streams up to {max_len} tokens", "evaluations": n, "violation": bool(bad), "details": bad[:3]}
+            "bound": f"tables over 3 precedence levels (two prefix, one postfix, two infix operators), streams up to {max_len} tokens", "evaluations": n, "violation": bool(bad), "details": bad[:3]}
 
 
 def extra_checks(tier, seed):
